@@ -35,6 +35,11 @@ R12g a cancelled instruction is not started afterwards: a UOD / engine command i
      marks the node cancelled and records Cancelled, but the request is already queued - so CommandManager._execute_command
      must test the conclusive-state predicate on the request's instance id before it dispatches to the executors, and the
      concluded outcome must retire the request without reaching them.
+R12h the request reaches the invocation it names: in cancel_instruction the executing request is looked up by the instance id of
+     the item (not by the command's name - another request of that name may be the one executing); in the node branch of
+     cancel_instruction and force_instruction the mutation is refused unless the item is the record's latest invocation (after an
+     Alarm re-armed or a macro was called again the node's flags describe the *new* invocation, and the state would be
+     recorded on it).
 """
 from __future__ import annotations
 
@@ -364,3 +369,41 @@ def run(ctx) -> None:
                  "the instruction is offered as cancellable in the tick between its visit and the start of its command; a cancel "
                  "accepted there records Cancelled, yet the queued request starts the command in the next tick - the cancelled "
                  "instruction performs its effect, and the states recorded after Cancelled make get_runlog() raise")
+
+    # ---- R12h
+    ctx.rule("R12h", "a request acts on the invocation it names")
+    ci = cmc.methods["cancel_instruction"]
+    lookups = [c for c in walk_no_nested(ci.node) if isinstance(c, ast.Call) and (call_attr(c) or "").startswith("_get_executing_command_request")]
+    ipar_ = ci.node.args.args[1].arg
+    inst = "cancel_instruction: the executing request is found by the item's instance id"
+    by_id = [c for c in lookups if c.args and isinstance(c.args[0], ast.Name) and c.args[0].id == ipar_]
+    if lookups and len(by_id) == len(lookups):
+        ctx.ok("R12h", inst)
+    elif not lookups:
+        raise AnchorError("cancel_instruction: lookup of the executing request not found")
+    else:
+        bad = [c for c in lookups if c not in by_id][0]
+        ctx.fail("R12h", ci, bad, inst, f"`{norm(bad)}` finds a request by command name: when another request of that name is executing (the item's own "
+                 "command was superseded or has finished) the cancel hits that other instruction's running command and the item itself "
+                 "stays as it was")
+    for mname in ("cancel_instruction", "force_instruction"):
+        f = cmc.methods[mname]
+        g = cfg_of(f)
+        ip = f.node.args.args[1].arg
+        node_marks = [n for n in g.nodes if n.ast is not None and any(
+            call_attr(c) in ("mark_cancelled", "mark_forced") and c.args and "node" in norm(c.args[0]) for c in n.calls())]
+        # role: the mark whose argument is the node looked up through the record (get_known_node_by_id)
+        from ..util import local_single_defs as _lsd12
+        node_marks = [n for n in g.nodes if n.ast is not None and any(
+            call_attr(c) in ("mark_cancelled", "mark_forced") and c.args and isinstance(c.args[0], ast.Name)
+            and "get_known_node_by_id" in norm(_lsd12(f).get(c.args[0].id, c.args[0])) for c in n.calls())]
+        if not node_marks:
+            raise AnchorError(f"{mname}: node branch (mark of the node found through the record) not recognised")
+        inst = f"{mname}: the node branch acts only on the record's latest invocation"
+        ok_ = all(any("last_instance_id" in a and ip in a for a, pol in facts_at(g, n)) for n in node_marks)
+        if ok_:
+            ctx.ok("R12h", inst)
+        else:
+            ctx.fail("R12h", f, node_marks[0].ast, inst, "the request is validated against the node's current flags and recorded on the record's latest "
+                     "invocation whatever item was named: after an Alarm re-armed, a request for the earlier (not offered) Watch item "
+                     "forces or cancels the Watch of the new invocation")
